@@ -412,6 +412,17 @@ def ev(t, ctx):
         tot = 0.0
         for b, v in t[1]:
             tot = tot + ev(('beta', b), ctx) * ev(('var', v), ctx)
+        if 'linutil_last_partner' in ctx.quirks and isinstance(tot, HD):
+            # engine defect (bioExprLinearUtility.cc keeps ONE partner variable per literal id: theFriend[beta id] is
+            # overwritten by every further term carrying that parameter): the value is the true sum, but the derivative
+            # with respect to a parameter is the variable of the LAST term carrying it instead of the sum over all of
+            # its terms.  Identical to the true derivative when no free parameter repeats.
+            n = len(tot.g)
+            g = [0.0] * n
+            for b, v in t[1]:
+                if b in ctx.free:
+                    g[ctx.free.index(b)] = float(ctx.row[v])
+            tot = HD(tot.v, g, [[0.0] * n for _ in range(n)])
         return _finite(tot, 'linutil', ctx)
     if k in ('loglogit', 'logit'):
         r = _loglogit(t, ctx)
